@@ -126,6 +126,10 @@ Definition step_line (v : server) (line : string) : server * list string :=
       let v' := do_restart v in
       let e := match restore c (sv_fs v) (init_state (st_now (sv_st v))) with Some _ => "0" | None => "1" end in
       (v', ["T err=" +:+ e +:+ " ls=" +:+ show_Z (sv_ls v')])
+  | ["L"; _; _] =>
+      (* a leftover temporary file of an earlier crash: the plan creates (truncates) its temporary files before
+         writing them, so whatever they held is unobservable — C10_crash_atomic is stated for every directory content *)
+      (v, [])
   | ["Z"; _] =>
       let '(v', r) := do_tick v in
       (v', ["Z taken=" +:+ (match r with Some SnapOk => "1" | _ => "0" end) +:+ " ls=" +:+ show_Z (sv_ls v')])
